@@ -58,7 +58,7 @@ os_free(os_ep *o)
 }
 
 static int
-os_start(os_ep *o, int is_server, unsigned version, uint16_t suite, int keykind)
+os_start(os_ep *o, int is_server, unsigned version, uint16_t suite, int keykind, int cauth)
 {
 	unsigned char id[2];
 	const SSL_CIPHER *ci;
@@ -100,12 +100,34 @@ os_start(os_ep *o, int is_server, unsigned version, uint16_t suite, int keykind)
 			exit(2);
 		}
 		X509_free(crt); EVP_PKEY_free(pk);
+		if (cauth) {
+			/* OpenSSL verifies the BearSSL client's chain and CertificateVerify signature */
+			store = SSL_CTX_get_cert_store(o->ctx);
+			p = FX_ca_rsa_crt; ca = d2i_X509(NULL, &p, (long)FX_ca_rsa_crt_len); X509_STORE_add_cert(store, ca); X509_free(ca);
+			p = FX_ca_ec_crt; ca = d2i_X509(NULL, &p, (long)FX_ca_ec_crt_len); X509_STORE_add_cert(store, ca); X509_free(ca);
+			SSL_set_verify(o->ssl, SSL_VERIFY_PEER | SSL_VERIFY_FAIL_IF_NO_PEER_CERT, NULL);
+		}
 		SSL_set_accept_state(o->ssl);
 	} else {
 		store = SSL_CTX_get_cert_store(o->ctx);
 		p = FX_ca_rsa_crt; ca = d2i_X509(NULL, &p, (long)FX_ca_rsa_crt_len); X509_STORE_add_cert(store, ca); X509_free(ca);
 		p = FX_ca_ec_crt; ca = d2i_X509(NULL, &p, (long)FX_ca_ec_crt_len); X509_STORE_add_cert(store, ca); X509_free(ca);
 		SSL_set_verify(o->ssl, SSL_VERIFY_PEER, NULL);
+		if (cauth) {
+			/* OpenSSL authenticates with a certificate; the BearSSL server verifies chain and signature */
+			if (cauth == 1) {
+				p = FX_cli_rsa_crt; crt = d2i_X509(NULL, &p, (long)FX_cli_rsa_crt_len);
+				p = FX_cli_rsa_key; pk = d2i_AutoPrivateKey(NULL, &p, (long)FX_cli_rsa_key_len);
+			} else {
+				p = FX_cli_ec_crt; crt = d2i_X509(NULL, &p, (long)FX_cli_ec_crt_len);
+				p = FX_cli_ec_key; pk = d2i_AutoPrivateKey(NULL, &p, (long)FX_cli_ec_key_len);
+			}
+			if (!crt || !pk || SSL_use_certificate(o->ssl, crt) != 1 || SSL_use_PrivateKey(o->ssl, pk) != 1) {
+				fprintf(stderr, "openssl: cannot load client fixture cert/key\n");
+				exit(2);
+			}
+			X509_free(crt); EVP_PKEY_free(pk);
+		}
 		SSL_set_tlsext_host_name(o->ssl, "localhost");
 		SSL_set_connect_state(o->ssl);
 	}
@@ -177,7 +199,7 @@ main(int argc, char **argv)
 		for (v = 0x0301; v <= 0x0303; v ++) {
 			os_ep probe;
 			if (tp_suites[i].tls12only && v != 0x0303) continue;
-			if (os_start(&probe, 0, v, tp_suites[i].id, TP_KEY_RSA)) {
+			if (os_start(&probe, 0, v, tp_suites[i].id, TP_KEY_RSA, 0)) {
 				sv[nsv].s = &tp_suites[i]; sv[nsv].version = v; nsv ++;
 			} else if (worker == 0) {
 				vf_distinct("peer_lacks_suite", "%s", tp_suites[i].name);
@@ -200,7 +222,7 @@ main(int argc, char **argv)
 		uint16_t suite_list[1];
 		size_t b_total, o_total, frag;
 		long steps = 0, idle = 0;
-		int hs_done = 0, closing = 0, done = 0;
+		int hs_done = 0, closing = 0, done = 0, cauth = 0;
 		uint64_t sched = 0;
 		static const size_t fc[6] = { 512, 1024, 2048, 4096, 16384, 8192 };   /* 8192: no max_fragment_length code, the endpoint asks for 4096 */
 
@@ -244,7 +266,10 @@ main(int argc, char **argv)
 			chunk, wpol, b_total, o_total, closer);
 
 		tp_fifo_init(&b2o); tp_fifo_init(&o2b);
-		if (!os_start(&o, b_is_client, pv->version, pv->s->id, keykind)) {
+		/* a third of the sessions use client authentication (RSA or EC certificate) */
+		cauth = (int)vf_below(&r, 3) == 0 ? 1 + (int)vf_below(&r, 2) : 0;
+		if (b_is_client) cfg.client_auth = cauth; else cfg.client_auth = cauth ? 1 : 0;
+		if (!os_start(&o, b_is_client, pv->version, pv->s->id, keykind, cauth)) {
 			vf_stat("peer_config_refused", 1);
 			goto next;
 		}
@@ -464,6 +489,21 @@ main(int argc, char **argv)
 				if (sh_code != ch_code) TP_VIOL("interop:mfl-echo-mismatch-accepted", "session completed although OpenSSL echoed another code than requested");
 				if (mm.m.max_plain_prot[0] > L) TP_VIOL("interop:mfl-client-exceeds-negotiated-length", "BearSSL client sent a record above the negotiated length to OpenSSL");
 				if (mm.m.max_plain_prot[1] > L) vf_stat("ossl_peer_exceeded_mfl", 1);
+			}
+		}
+		if (cauth) {
+			vf_stat("ossl_client_auth_sessions", 1);
+			vf_distinct("ossl_client_auth", "%d/%d/%04x/kx%d", b_is_client, cauth, pv->version, pv->s->kx);
+			if (b_is_client) {
+				X509 *pc = SSL_get_peer_certificate(o.ssl);
+				if (pc == NULL || SSL_get_verify_result(o.ssl) != X509_V_OK) {
+					TP_VIOL("interop:client-certificate-not-verified-by-openssl", "session completed but OpenSSL holds no verified client certificate");
+				} else vf_stat("ossl_verified_bearssl_client", 1);
+				if (pc) X509_free(pc);
+			} else {
+				if (b.xw->n_end_chain < 1 || !b.xw->verdict_seen || b.xw->last_verdict != 0 || b.xw->n_get_pkey < 1) {
+					TP_VIOL("interop:client-chain-not-validated", "session with client authentication completed although the server's validator did not accept a client chain");
+				} else vf_stat("bearssl_verified_ossl_client", 1);
 			}
 		}
 		vf_stat("ossl_sessions_completed", 1);
